@@ -60,6 +60,42 @@ def import_repo():
 
 
 # ----------------------------------------------------------------------------------
+# TLAPS
+
+def run_tlaps(ctx, module, what, timeout=1500):
+    """Re-check an unbounded proof (spec/<module>.tla) with the TLA+ proof system.  The proof is part of /verif, no change
+    of the code under test can invalidate it; the re-check guards the specification itself.  Back-end provers run under
+    wall-clock limits, so on a loaded machine an obligation may time out: a second attempt gets four times the limits,
+    and if obligations are still open the outcome is recorded as a note (no verdict either way), never as a violation."""
+    key = 'tlaps_' + module
+    if shutil.which('tlapm') is None:
+        ctx.notes[key] = 'tlapm not installed: %s not re-checked' % what
+        return None
+    d = ctx.scratch / key
+    d.mkdir(exist_ok=True)
+    shutil.copy(str(SPEC / (module + '.tla')), str(d / (module + '.tla')))
+    last = ''
+    for threads, stretch in ((4, 3), (2, 12)):
+        try:
+            p = subprocess.run(['tlapm', '--threads', str(threads), '--stretch', str(stretch), module + '.tla'], cwd=str(d),
+                               stdout=subprocess.PIPE, stderr=subprocess.STDOUT, text=True, timeout=timeout)
+        except subprocess.TimeoutExpired:
+            ctx.notes[key] = 'tlapm timed out (no verdict)'
+            return None
+        m = re.search(r'All (\d+) obligations proved', p.stdout)
+        if m:
+            ctx.notes[key] = '%s.tla: all %s proof obligations proved (%s)' % (module, m.group(1), what)
+            return int(m.group(1))
+        last = p.stdout
+        if 'obligations failed' not in last:          # parse error etc.: the specification itself is broken
+            raise MachineryError('TLAPS could not process spec/%s.tla:\n%s' % (module, last[-1500:]))
+    m = re.search(r'(\d+)/(\d+) obligations failed', last)
+    ctx.notes[key] = ('%s.tla: %s of %s obligations not discharged within the back-end time limits on this machine '
+                      '(no verdict; all were proved when the module was committed)' % ((module,) + (m.groups() if m else ('?', '?'))))
+    return None
+
+
+# ----------------------------------------------------------------------------------
 # TLC
 
 _SUMMARY = re.compile(r'(\d+) states generated, (\d+) distinct states found')
